@@ -89,6 +89,7 @@ func runC06(c *Ctx) {
 	c.Rule("C06.CRC", "FLOW+DOM: the bytes each writer feeds to the CRC are exactly the bytes it copies after the entry header; the reader hashes the whole buffer it read (not a derived slice); every nil-error return of readEntry is dominated by computed == stored checksum")
 	c.Rule("C06.BOUND", "DOM: the reader's payload allocation and both writers' entry construction execute only under length <= MaxWALPayloadSize")
 	c.Rule("C06.EOF", "DOM: a short entry-header read makes readEntry return io.EOF, io.EOF ends ReadAll's loop, and ReadAll appends entries at the tail in read order at a single site")
+	c.Rule("C06.TAIL", "EXITS: once the file header was accepted, every exit of ReadAll returns the entries read so far with a nil error — a torn or corrupt tail is counted and skipped, never turned into an error (RecoverWithOptions skips a file whose ReadAll failed, which would hide the complete entries before the tear)")
 	c.Rule("C06.FIFO", "WHO: entries reach the file in append order: only tryEnqueue sends on entryChan, only writerLoop receives from it, and writeEntry writes the dequeued bytes itself (no re-enqueue)")
 
 	ar := c.MustFunc("C06.LAYOUT", "(*internal/wal.Writer).AppendRaw")
@@ -552,6 +553,24 @@ func c06EOF(c *Ctx, re, ra *ssa.Function) {
 		}
 	}
 	c.Check(exitOnEOF, "C06.EOF", "ReadAll|eof-ends-loop", rcall.Pos(), "err == io.EOF leaves the read loop", "io.EOF from readEntry does not terminate ReadAll's loop")
+	// once the file header was accepted, ReadAll returns its entries with a nil error
+	nAfter := 0
+	okAfter := true
+	for _, in := range instrs(ra, false) {
+		r, ok := in.(*ssa.Return)
+		if !ok || len(r.Results) != 2 {
+			continue
+		}
+		// returns that lie in, or after, the read loop: reachable from the readEntry call
+		if !(rcall.Block().Dominates(r.Block()) || instrDominates(rcall.(ssa.Instruction), r)) {
+			continue
+		}
+		nAfter++
+		if !isNilConst(unspill(r, r.Results[1])) {
+			okAfter = false
+		}
+	}
+	c.Check(okAfter && nAfter >= 1, "C06.TAIL", "ReadAll|torn-tail-is-not-an-error", rcall.Pos(), "every exit after the first readEntry returns the entries with a nil error", "ReadAll returns an error from inside the read loop: recovery skips a file whose ReadAll failed, so a tail torn inside a payload hides every entry completely written before it")
 	// single append, at the tail, of the entry just read
 	nApp := 0
 	okTail := false
